@@ -1,6 +1,7 @@
 package c34
 
 import (
+	"bytes"
 	"errors"
 	"io"
 	"net"
@@ -8,20 +9,42 @@ import (
 	"time"
 )
 
+// teeConn records everything the client side writes into the conn.
+type teeConn struct {
+	net.Conn
+	mu  sync.Mutex
+	log bytes.Buffer
+}
+
+func (t *teeConn) Write(p []byte) (int, error) {
+	n, err := t.Conn.Write(p)
+	t.mu.Lock()
+	t.log.Write(p[:n])
+	t.mu.Unlock()
+	return n, err
+}
+
+func (t *teeConn) written() []byte {
+	t.mu.Lock()
+	defer t.mu.Unlock()
+	return append([]byte(nil), t.log.Bytes()...)
+}
+
 // core is the instrumented body stream. Its exported faces (plainS, closerS,
 // wtS, bwtS) differ only in their method sets, which is what fasthttp's type
 // switches look at. All state is guarded by mu: the compressed-stream path of
 // fasthttp reads and closes the original stream from different goroutines.
 type core struct {
-	mu      sync.Mutex
-	data    []byte
-	pos     int
-	chunks  []int // read / WriteTo chunk sizes, cycled
-	ci      int
-	panicAt int  // panic once pos >= panicAt (-1: never)
-	errAt   int  // return errStream once pos >= errAt (-1: never)
-	eofData bool // deliver the last chunk together with io.EOF
-	zeroAt  int  // return (0, nil) once when pos >= zeroAt (-1: never)
+	mu       sync.Mutex
+	data     []byte
+	pos      int
+	chunks   []int // read / WriteTo chunk sizes, cycled
+	ci       int
+	panicAt  int  // panic once pos >= panicAt (-1: never)
+	errAt    int  // return errStream once pos >= errAt (-1: never)
+	eofData  bool // deliver the last chunk together with io.EOF
+	zeroAt   int  // return (0, nil) once when pos >= zeroAt (-1: never)
+	closeErr bool // Close reports errCloseInjected (already-closed file, checksum mismatch at Close, ...)
 
 	closes          int // every Close call is counted (no Once)
 	closeWithErr    int
@@ -134,10 +157,15 @@ func (c *core) writeTo(w io.Writer) (int64, error) {
 	}
 }
 
+var errCloseInjected = errors.New("c34: injected Close error")
+
 func (c *core) close() error {
 	c.mu.Lock()
+	defer c.mu.Unlock()
 	c.closes++
-	c.mu.Unlock()
+	if c.closeErr {
+		return errCloseInjected
+	}
 	return nil
 }
 
